@@ -63,42 +63,54 @@ theorem ofErrors_rem (t : Nat) (ht : t < errors.length) :
 
 end
 
-/-- **Residual level, encoder side.** For prediction errors strictly inside `(-2^31, 2^31)` and a
-choice `(o, ps)` of the search space, the residual component is well-formed, accepted by the strict
-reader, and decodes to exactly the errors after the warm-up. -/
-theorem readResidual_ofErrors (errors : List Int) (w o : Nat) (ps : List Nat) (n : Nat)
+/-- The residual component built from prediction errors strictly inside `(-2^31, 2^31)` and a choice
+`(o, ps)` with `w ≤ n >> o` is well-formed. -/
+theorem ofErrors_wf (errors : List Int) (w o : Nat) (ps : List Nat) (n : Nat)
     (hn : errors.length = n) (hpos : 0 < n) (ho : o ≤ 15) (hps : ps.length = 2 ^ o) (hdvd : 2 ^ o ∣ n)
     (hw : w ≤ n >>> o) (hp : ∀ p ∈ ps, p ≤ 14)
+    (herr : ∀ e ∈ errors, -(2 ^ 31 : Int) < e ∧ e < (2 ^ 31 : Int)) :
+    (Residual.ofErrors errors w o ps).WF := by
+  subst hn
+  have hpar : ps.take (2 ^ o) = ps := List.take_of_length_le (by omega)
+  refine ⟨ho, ?_, hdvd, hw, hpos, ?_, ?_, ?_, ?_, ?_⟩
+  · rw [ofErrors_params, hpar, ofErrors_order]; exact hps
+  · simp [Residual.ofErrors]
+  · simp [Residual.ofErrors]
+  · rw [ofErrors_params, hpar]; exact hp
+  · intro t ht
+    have htl : t < errors.length := by
+      have h1 : errors.length >>> o ≤ errors.length := by
+        rw [Nat.shiftRight_eq_div_pow]; exact Nat.div_le_self _ _
+      rw [ofErrors_warmup] at ht
+      omega
+    rw [ofErrors_warmup] at ht
+    rw [ofErrors_quot _ _ _ _ _ htl, ofErrors_rem _ _ _ _ _ htl, if_pos ht, if_pos ht]
+    exact ⟨rfl, rfl⟩
+  · intro t ht
+    rw [ofErrors_blockSize] at ht
+    rw [ofErrors_rem _ _ _ _ _ ht, ofErrors_params, hpar, ofErrors_partLen]
+    split
+    · exact Nat.two_pow_pos _
+    · exact Nat.mod_lt _ (Nat.two_pow_pos _)
+
+/-- **Residual level, encoder side.** For prediction errors strictly inside `(-2^31, 2^31)` and a
+choice `(o, ps)` of the search space whose partition length `n >> o` is LARGER than the predictor order
+(RFC 9639 section 9.2.7), the residual component is well-formed, accepted by the strict reader, and
+decodes to exactly the errors after the warm-up. -/
+theorem readResidual_ofErrors (errors : List Int) (w o : Nat) (ps : List Nat) (n : Nat)
+    (hn : errors.length = n) (hpos : 0 < n) (ho : o ≤ 15) (hps : ps.length = 2 ^ o) (hdvd : 2 ^ o ∣ n)
+    (hw : w < n >>> o) (hp : ∀ p ∈ ps, p ≤ 14)
     (herr : ∀ e ∈ errors, -(2 ^ 31 : Int) < e ∧ e < (2 ^ 31 : Int)) (k : Bits) :
     (Residual.ofErrors errors w o ps).WF ∧
     readResidual n w ((Residual.ofErrors errors w o ps).bits ++ k) = .ok (⟨o, ps, errors.drop w⟩, k) := by
+  have hwf : (Residual.ofErrors errors w o ps).WF :=
+    ofErrors_wf errors w o ps n hn hpos ho hps hdvd (by omega) hp herr
   subst hn
   have hpar : ps.take (2 ^ o) = ps := List.take_of_length_le (by omega)
   have hfold : ∀ t, t < errors.length → (encodeSignbit (errors.getD t 0)).getD 0 = fold (errors.getD t 0) := by
     intro t ht
     have := herr _ (getD_mem_int errors t ht)
     rw [encodeSignbit_eq_fold _ this.1 this.2]; rfl
-  have hwf : (Residual.ofErrors errors w o ps).WF := by
-    refine ⟨ho, ?_, hdvd, hw, hpos, ?_, ?_, ?_, ?_, ?_⟩
-    · rw [ofErrors_params, hpar, ofErrors_order]; exact hps
-    · simp [Residual.ofErrors]
-    · simp [Residual.ofErrors]
-    · rw [ofErrors_params, hpar]; exact hp
-    · intro t ht
-      have htl : t < errors.length := by
-        have h1 : errors.length >>> o ≤ errors.length := by
-          rw [Nat.shiftRight_eq_div_pow]; exact Nat.div_le_self _ _
-        rw [ofErrors_warmup] at ht
-        omega
-      rw [ofErrors_warmup] at ht
-      rw [ofErrors_quot _ _ _ _ _ htl, ofErrors_rem _ _ _ _ _ htl, if_pos ht, if_pos ht]
-      exact ⟨rfl, rfl⟩
-    · intro t ht
-      rw [ofErrors_blockSize] at ht
-      rw [ofErrors_rem _ _ _ _ _ ht, ofErrors_params, hpar, ofErrors_partLen]
-      split
-      · exact Nat.two_pow_pos _
-      · exact Nat.mod_lt _ (Nat.two_pow_pos _)
   have hval : ∀ t, w ≤ t → t < errors.length →
       (Residual.ofErrors errors w o ps).quotients.getD t 0 *
           2 ^ ((Residual.ofErrors errors w o ps).params.getD (t / (Residual.ofErrors errors w o ps).partLen) 0) +
@@ -107,6 +119,7 @@ theorem readResidual_ofErrors (errors : List Int) (w o : Nat) (ps : List Nat) (n
     rw [ofErrors_quot _ _ _ _ _ h2, ofErrors_rem _ _ _ _ _ h2, ofErrors_params, hpar, ofErrors_partLen,
       if_neg (by omega), if_neg (by omega), hfold t h2, rice_split]
   have hstrict : Residual.Strict (Residual.ofErrors errors w o ps) := by
+    refine ⟨by rw [ofErrors_warmup, ofErrors_blockSize, ofErrors_order]; exact hw, ?_⟩
     intro t h1 h2
     rw [ofErrors_warmup] at h1
     rw [ofErrors_blockSize] at h2
